@@ -236,7 +236,13 @@ def rule_M1(ctx) -> None:
                 ys = [e for e in p.events if e.kind == "yield"]
                 if ys:
                     v = _yield_value(ys[0])
-                    outcomes.add("yield:None" if v == C(None) else "yield:payload")
+                    consuming = [e for e in p.events if e.kind == "call" and e.depth == 0 and (dotted(e.data[1]).endswith(".read") or dotted(e.data[1]) in ("load_varint", "decode_varint") or dotted(e.data[1]) in exact_readers(mod))]
+                    if w in GROUP_WIRE and v is not None and v[0] == "c" and len(consuming) <= 2 and q == "load_fields":
+                        outcomes.add("yield:constant")
+                    elif w in GROUP_WIRE and v is not None and v[0] == "c":
+                        outcomes.add("yield:constant")
+                    else:
+                        outcomes.add("yield:None" if v == C(None) else "yield:payload")
                 elif p.outcome == "raise":
                     outcomes.add("raise")
                 else:
@@ -248,7 +254,12 @@ def rule_M1(ctx) -> None:
                 else:
                     ctx.refuted("M1", f"{q}:wire[{w}]", ",".join(sorted(outcomes)), mod.loc(fn), f"valid wire type {w} is not decoded into a payload: {sorted(outcomes)}")
             else:
-                if "yield:None" in outcomes or (w in INVALID_WIRE and "yield:payload" in outcomes):
+                if "yield:constant" in outcomes and "yield:None" not in outcomes:
+                    ctx.refuted("M1", f"{q}:wire[{w}]", "group-marker-accepted", mod.loc(fn),
+                                f"a {'START' if w == 3 else 'END'}_GROUP tag (wire type {w}) is accepted as a payload-less field without skipping the group: the members of a proto2 group are then parsed "
+                                "as fields of the enclosing message and can overwrite known fields; unbalanced markers are accepted",
+                                "M().parse(b'\\x08\\x05\\x1b\\x08\\x07\\x1c')  # field 1 inside a group overwrites field 1")
+                elif "yield:None" in outcomes or (w in INVALID_WIRE and "yield:payload" in outcomes):
                     ctx.refuted("M1", f"{q}:wire[{w}]", ",".join(sorted(outcomes)), mod.loc(fn),
                                 f"wire type {w} is not handled by the dispatch chain: the field is yielded with no payload (value None) instead of being rejected",
                                 f"M().parse(bytes([(1 << 3) | {w}]) + b'\\x00')")
